@@ -18,7 +18,9 @@ Base == {[uid |-> 100 + i, kind |-> "plain", tid |-> 0, msg |-> "", text |-> m, 
         \cup {[uid |-> 300, kind |-> k, tid |-> t, msg |-> m, text |-> "", cause |-> NoErr] : k \in {"application", "transport", "protocol"}, t \in Tids, m \in Msgs}
 Wrapped1 == {[Wrap(e) EXCEPT !.uid = 400] : e \in Base}
 Wrapped2 == {[uid |-> 500, kind |-> "protocol", tid |-> 1, msg |-> "outer", text |-> "", cause |-> e] : e \in Wrapped1}
-All == Base \cup Wrapped1 \cup Wrapped2
+\* standard-library wrappers around plain errors, exceptions of every kind and wrapped protocol exceptions
+FmtWrapped == {[uid |-> 600, kind |-> "fmtwrap", tid |-> 0, msg |-> "", text |-> "ctx: " \o ErrorText(e), cause |-> e] : e \in Base \cup Wrapped1}
+All == Base \cup Wrapped1 \cup Wrapped2 \cup FmtWrapped
 
 PrependPreserves ==
   \A e \in All, p \in {"", "p: "} :
@@ -26,19 +28,22 @@ PrependPreserves ==
     /\ ErrorText(r) = p \o ErrorText(e)                                            \* text = prefix + original text
     /\ (IsExc(e) => (r.kind = e.kind /\ r.tid = e.tid))                             \* kind and type id preserved
     /\ (e.kind = "foreign" => (r.kind = "application" /\ r.tid = e.tid))
-    /\ (e.kind = "plain" => r.kind = "plain")
+    /\ (e.kind \in {"plain", "fmtwrap"} => r.kind = "plain")
 WrapKeepsCause ==
   \A e \in All :
     LET w == [Wrap(e) EXCEPT !.uid = IF e.kind = "protocol" THEN e.uid ELSE 999] IN
     /\ ErrorsIs(w, e)                                   \* the cause stays reachable
     /\ (e.kind = "protocol" => w = e)                   \* identity on protocol exceptions
     /\ (e.kind # "protocol" => (Unwrap(w) = e /\ w.tid = 0 /\ w.msg = ErrorText(e)))
+    \* a protocol exception buried in a wrapper is NOT returned as such: the wrapper is the cause, and its chain stays reachable
+    /\ (e.kind = "fmtwrap" => (w.kind = "protocol" /\ w # e.cause /\ ErrorsIs(w, e.cause)))
 IsRule ==
   \A a \in All, b \in All :
     a.kind = "protocol" =>
       (ErrorsIs(a, b) <=> (\/ Same(a, b)
                            \/ (HasTypeId(b) /\ b.tid = a.tid /\ ErrorText(b) = a.msg)
                            \/ (IsErr(a.cause) /\ ErrorsIs(a.cause, b))))
-NonProtocolIsIdentity == \A a \in All, b \in All : a.kind # "protocol" => (ErrorsIs(a, b) <=> Same(a, b))
-Inv == PrependPreserves /\ WrapKeepsCause /\ IsRule /\ NonProtocolIsIdentity /\ Cardinality(All) > 100
+NonProtocolIsIdentity == \A a \in All, b \in All : a.kind \notin {"protocol", "fmtwrap"} => (ErrorsIs(a, b) <=> Same(a, b))
+FmtWrapIsChain == \A a \in All, b \in All : a.kind = "fmtwrap" => (ErrorsIs(a, b) <=> (Same(a, b) \/ ErrorsIs(a.cause, b)))
+Inv == PrependPreserves /\ WrapKeepsCause /\ IsRule /\ NonProtocolIsIdentity /\ FmtWrapIsChain /\ Cardinality(All) > 200
 =============================================================================
